@@ -85,7 +85,15 @@ theorem generated_cutByOrder_eq_model (pids : List Int) (r : Rose) (h : IsTree r
 example : order_enter (rangeI 5) exPids 1 1 (some 0) = some (1, true) := by decide +kernel
 example : order_enter (rangeI 5) exPids 1 4 (some 0) = some (0, false) := by decide +kernel
 example : cut_tree_enter (orderCallback exPids 1) 11 (rangeI 5) exPids true = some (true, (([0, 1], [-1, 0]), [0, 4])) := by decide +kernel
--- `CutByType.__call__` as translated (executed against the real transform by the op `gcuttype`)
+/-! ## `CutByType` -/
+
+/-- the translated `CutByType.__call__` (the `removals` set, its `leave` closure, the generated traversal and `to_subtree`) equals the model
+`Sub.cutByType` on every tree table with a type column of the same length -/
+theorem generated_cutByType_eq_model (pids types : List Int) (ty : Int) (r : Rose) (h : IsTree r pids) (hl : types.length = pids.length) (F : Nat) :
+    cut_by_type (2 * r.size + F + 1) (rangeI pids.length) pids types ty =
+      (cutByType pids types ty).map (fun t => ((Py.range (t.mapping.length : Int), t.newPid), t.mapping)) :=
+  cutByType_refines pids types ty r h hl F
+
 example : cut_by_type 11 (rangeI 5) exPids [1, 3, 2, 3, 3] 2 = some (([0, 1, 2], [-1, 0, 1]), [0, 1, 2]) := by decide +kernel
 
 end C06
